@@ -209,9 +209,9 @@ class Atc(Base, ActionToCheck):
     def execute(self, e, o, atc_input, output):
         x = self._o('execute')
         if x == 'ok':
-            output.out.write('ATC-STDOUT')
-            output.err.write('ATC-STDERR')
-            return eh.new_eh_exit_code(ATC_EXIT_CODE)
+            output.out.write('atc-out\n')
+            output.err.write('atc-err\n')
+            return eh.new_eh_exit_code(int(self.script.get('exit', ATC_EXIT_CODE)))
         if x == 'he_ret':
             return eh.new_eh_hard_error(FailureDetails.new_constant_message('scripted'))
         if x == 'he_raise':
